@@ -133,6 +133,89 @@ class Check(common.Check):
             adds.insert(rng.randint(0, len(adds)), [8 * rng.choice([0, ntimes, ntimes + 3]), -1])
         return {'kind': 'score', 'adds': adds, 'tail': 8 * rng.choice([0, 0, 1, ntimes, ntimes + 2])}
 
+    def gen_appsched(self, rng):
+        """AppClock's scheduler object: items scheduled relative / absolute, time advanced in steps so that
+        several entries with different (and equal) times are due in one pass; waking items re-schedule
+        themselves and others; both the recursive and the non-recursive (AppClock) variant"""
+        nt = rng.randint(1, 6)
+        ops = []
+
+        def one():
+            r = rng.random()
+            if r < 0.5:
+                return ['sched', rng.choice([0, 1, 2, 4, 8, 8, 12]), rng.randrange(nt)]
+            if r < 0.9:
+                return ['abs', rng.choice([0, 2, 4, 8, 8, 16, 24]), rng.randrange(nt)]
+            return ['clear']
+        now = 0
+        for _ in range(rng.randint(2, 14)):
+            if rng.random() < 0.7:
+                ops.append(one())
+            else:
+                now += rng.choice([1, 4, 8, 16])
+                ops.append(['to', now])
+        ops.append(['to', now + 40])
+        beh = {}
+        for t in range(nt):
+            for n in range(rng.choice([0, 1, 1, 2])):
+                if rng.random() < 0.7:
+                    beh[f'{t}:{n}'] = [rng.choice([None, 0, 1, 2, 8]), [one() for _ in range(rng.choice([0, 0, 1, 2]))]]
+        return {'kind': 'appsched', 'ops': ops, 'beh': beh, 'recursive': rng.random() < 0.4}
+
+    def oracle_appsched(self, case, out):
+        """reference: stable priority queue; advancing to time v wakes the due entries in time order (first in
+        first out among equals); non-recursive: what the woken items schedule waits for the next advance"""
+        s, seq, now, wakes = [], 0, 0, {}
+
+        def add(time, t):
+            nonlocal s, seq
+            s = [x for x in s if x[2] != t]
+            s.append((time, seq, t)); seq += 1; s.sort()
+
+        def do(op):
+            nonlocal s
+            if op[0] == 'sched':
+                add(now + op[1], op[2])
+            elif op[0] == 'abs':
+                add(op[1], op[2])
+            elif op[0] == 'clear':
+                s = []
+
+        def wake(time, t, woke):
+            nonlocal now
+            now = time
+            woke.append((time, t))
+            n = wakes.get(t, 0); wakes[t] = n + 1
+            b = case['beh'].get(f'{t}:{n}')
+            if b:
+                for sub in b[1]:
+                    do(sub)
+                if b[0] is not None:
+                    add(now + b[0], t)
+        for i, (op, o) in enumerate(zip(case['ops'], out)):
+            exp = 'ok'
+            if op[0] == 'to':
+                v, woke = op[1], []
+                if s:
+                    if case.get('recursive'):
+                        while s and s[0][0] <= v and len(woke) <= 400:
+                            time, _, t = s.pop(0)
+                            wake(time, t, woke)
+                    else:
+                        due = []
+                        while s and s[0][0] <= v:
+                            due.append(s.pop(0))
+                        for time, _, t in due:
+                            wake(time, t, woke)
+                now = v
+                exp = 'woke [' + ','.join(f'({a},{b})' for a, b in woke) + f'] now {v} empty {not s}'
+            else:
+                do(op)
+            if o != exp:
+                return {'what': f'AppClock scheduler op #{i} {op}: observed `{o}`; due entries in time order, first in first out: `{exp}`',
+                        'signature': f'appsched:{op[0]}', 'index': i}
+        return None
+
     def gen_ppar(self, rng):
         """parallel pattern streams: 1-5 children with 1-6 deltas from a small set (zero deltas and
         equal times frequent)"""
@@ -143,6 +226,7 @@ class Check(common.Check):
     def gen(self, rng, n):
         cases = [self.gen_one(rng) for _ in range(n)]
         cases += [self.gen_ppar(rng) for _ in range(max(60, n // 6))]
+        cases += [self.gen_appsched(rng) for _ in range(max(60, n // 8))]
         cases += [self.gen_shutdown(rng) for _ in range(max(20, n // 8))]
         cases += [self.gen_sched(rng) for _ in range(max(60, n // 4))]
         cases += [self.gen_score(rng) for _ in range(max(40, n // 8))]
@@ -163,6 +247,7 @@ class Check(common.Check):
             self.notes.append(err)
             return res
         self._score_base = {}
+        self._last_impl = {i: o for i, (c, o) in enumerate(zip(cases, res)) if isinstance(c, dict) and c.get('kind') == 'appsched'}
         for i, (c, o) in enumerate(zip(cases, res)):
             if isinstance(c, dict) and c.get('kind') == 'score' and len(o) == 3:
                 self._score_base[i] = o[1]
@@ -190,6 +275,8 @@ class Check(common.Check):
             lines.append('reset')
             if isinstance(ops, dict) and ops.get('kind') == 'sched':
                 lines.extend(self.sched_lines(ops))
+            elif isinstance(ops, dict) and ops.get('kind') == 'appsched':
+                pass          # no Lean model of AppClock's scheduler object: decided by the reference oracle only
             elif isinstance(ops, dict) and ops.get('kind') == 'ppar':
                 lines.append('ppar ' + ' '.join(','.join(str(d) for d in ds) if ds else '-' for ds in ops['rem']))
             elif isinstance(ops, dict) and ops.get('kind') == 'score':
@@ -212,7 +299,10 @@ class Check(common.Check):
                 cur.append(l)
         # a shutdown case prints one 'ok' per add and then the drain line; keep the drain line
         final = []
-        for case, c in zip(cases, res):
+        for ci, (case, c) in enumerate(zip(cases, res)):
+            if isinstance(case, dict) and case.get('kind') == 'appsched':
+                final.append(list((getattr(self, '_last_impl', None) or {}).get(ci, [])))     # not compared
+                continue
             if isinstance(case, dict) and case.get('kind') in ('sched', 'ppar'):
                 final.append(c)
             elif isinstance(case, dict) and case.get('kind') == 'score':
@@ -367,6 +457,8 @@ class Check(common.Check):
             return self.oracle_score(ops, out)
         if isinstance(ops, dict) and ops.get('kind') == 'ppar':
             return self.oracle_ppar(ops, out)
+        if isinstance(ops, dict) and ops.get('kind') == 'appsched':
+            return self.oracle_appsched(ops, out)
         if isinstance(ops, dict):
             return self.oracle_shutdown(ops, out)
         s = []   # list of (prio, seq, task), kept sorted by (prio, seq)
@@ -408,6 +500,8 @@ class Check(common.Check):
             return len(set(map(tuple, ops['adds']))) < len(ops['adds'])
         if isinstance(ops, dict) and ops.get('kind') == 'ppar':
             return len(ops['rem']) > 1 and any(0 in d for d in ops['rem'])
+        if isinstance(ops, dict) and ops.get('kind') == 'appsched':
+            return any(o.startswith('woke [(') and '),(' in o for o in out)
         if isinstance(ops, dict):
             return bool(ops['beh'])
         seen, re_add = set(), False
@@ -426,6 +520,7 @@ class Check(common.Check):
              'scheduler_cases': sum(1 for c in cases if isinstance(c, dict) and c.get('kind') == 'sched'),
              'scheduler_tempo_changes': sum(sum(1 for o in c['ops'] if o[0] == 'tempo') for c in cases
                                             if isinstance(c, dict) and c.get('kind') == 'sched'),
+             'appclock_scheduler_cases': sum(1 for c in cases if isinstance(c, dict) and c.get('kind') == 'appsched'),
              'ppar_cases': sum(1 for c in cases if isinstance(c, dict) and c.get('kind') == 'ppar'),
              'score_cases': sum(1 for c in cases if isinstance(c, dict) and c.get('kind') == 'score')}
         for ops, out in zip(cases, outs):
